@@ -52,4 +52,47 @@ EntrySmallPool ==
     [AnyEntry EXCEPT !.v = H2, !.tls = "false", !.lim = "true"],
     [AnyEntry EXCEPT !.p = GRPCWEB, !.c = JSON, !.lim = "false"],
     [AnyEntry EXCEPT !.v = H1, !.p = CONNECT, !.tls = "true"] }
+
+\* ten of them, for lists of three entries
+EntryTenPool ==
+  { AnyEntry,
+    [AnyEntry EXCEPT !.v = H2, !.c = PROTO, !.s = SERVERS],
+    [AnyEntry EXCEPT !.p = GRPC, !.tls = "false"],
+    [AnyEntry EXCEPT !.v = H3],
+    [AnyEntry EXCEPT !.v = H1, !.s = HALFDUP],
+    [AnyEntry EXCEPT !.s = FULLDUP, !.tls = "false"],
+    [AnyEntry EXCEPT !.tls = "false", !.cert = "false"],
+    [AnyEntry EXCEPT !.cert = "true"],
+    [AnyEntry EXCEPT !.c = TEXT],
+    [AnyEntry EXCEPT !.p = GRPCWEB, !.c = JSON, !.lim = "false"] }
+
+(* ---- worked examples of docs/configuring_and_running_tests.md, checked when TLC starts ---- *)
+NoFeatures == [vs |-> {}, ps |-> {}, cs |-> {}, zs |-> {}, ss |-> {}, h2c |-> "unset", tls |-> "unset", certs |-> "unset",
+               trailers |-> "unset", hdh1 |-> "unset", get |-> "unset", lim |-> "unset"]
+
+\* "Config Cases": {version: HTTP_VERSION_2, codec: CODEC_PROTO, stream_type: STREAM_TYPE_SERVER_STREAM}
+\* "expands to config cases with the above properties for all three protocols ... [and] into config
+\* cases that represent TLS and those that do not"
+DocEntry == [AnyEntry EXCEPT !.v = H2, !.c = PROTO, !.s = SERVERS]
+ASSUME LET S == EntryCases(Resolve(NoFeatures), DocEntry) IN
+         /\ \A c \in S : c.v = H2 /\ c.c = PROTO /\ c.s = SERVERS
+         /\ {c.p : c \in S} = Protocols
+         /\ {c.tls : c \in S} = BOOLEAN
+         /\ EntryMust(Resolve(NoFeatures), DocEntry) = {}
+
+\* "Configuration Files": an implementation supporting Connect and gRPC (not gRPC-Web), HTTP 1.1 and
+\* HTTP/2, proto and json: "a config case for the Connect protocol over HTTP 1.1 using json applies ...
+\* But a config case for the gRPC-Web protocol over HTTP/3 does not."
+ASSUME LET f == [NoFeatures EXCEPT !.vs = {H1, H2}, !.ps = {CONNECT, GRPC}, !.cs = {PROTO, JSON}]
+           S == FeatureCases(Resolve(f)) IN
+         /\ FeatErrs(f) = {}
+         /\ \E c \in S : c.p = CONNECT /\ c.v = H1 /\ c.c = JSON
+         /\ ~\E c \in S : c.p = GRPCWEB \/ c.v = H3
+
+\* "Features": defaults - HTTP 1.1 and HTTP/2, all three protocols, proto and json, identity and gzip,
+\* all stream types, TLS and H2C supported, no client certs, GET and receive limit supported
+ASSUME LET D == Resolve(NoFeatures) IN
+         /\ D.vs = {H1, H2} /\ D.ps = Protocols /\ D.cs = {PROTO, JSON} /\ D.zs = {1, 2} /\ D.ss = StreamTypes
+         /\ D.h2c /\ D.tls /\ ~D.certs /\ D.trailers /\ ~D.hdh1 /\ D.get /\ D.lim
+         /\ FeatErrs(NoFeatures) = {}
 =============================================================================
